@@ -12,7 +12,8 @@
    N x N per-pair block re-read in the order nl2.  veq = pointwise equality of rationals.
 
    Statements only; proofs in Proofs/C14xRhs.v, C14xTop.v. *)
-From EoNV Require Import Prelude Graph Aux Vec IC Wrappers Rhs2D VecP C14xDef C14xRhs C14xTop C14xOut C14xWrap C14xEx.
+From EoNV Require Import Prelude Samp Graph Aux Vec IC Wrappers Rhs2D VecP EventSIR EventSIRP EventSIRInv EventSIRChar EventSIRTop Discrete DiscreteP
+     C14xDef C14xRhs C14xTop C14xOut C14xWrap C14xSim C14xEx.
 From Coq Require Import Permutation.
 
 Section C14x.
@@ -186,6 +187,81 @@ Example C14x_iso_output_nontrivial :
   end = true.
 Proof. exact ex_iso_output_nontrivial. Qed.
 
+(* ====================================================================== *)
+(* simulators driven by deterministic user rules                           *)
+(* ====================================================================== *)
+(* corollaries of the C12 / C11 characterisations (Props/C12.v C12_dsir_bfs, Props/C11.v esir_first_passage).
+   g' is a copy of g under the injective renaming phi: node list and every adjacency list in any order (directed graphs
+   allowed: gadj = successors); the initial sets are handed over in any order; the rule tables are transported along phi. *)
+Section C14x_simulators.
+Variables (g g' : graph) (phi : node -> node).
+Hypothesis Hinj : forall u v, phi u = phi v -> u = v.
+Hypothesis Hnodes : Permutation (gnodes g') (map phi (gnodes g)).
+Hypothesis Hadj : forall u, In u (gnodes g) -> Permutation (gadj g' (phi u)) (map phi (gadj g u)).
+Variables (i0 i0' r0 r0' : list node).
+Hypothesis Hi0 : Permutation i0' (map phi i0).
+Hypothesis Hr0 : Permutation r0' (map phi r0).
+
+(* breadth-first generations / shortest-path costs are preserved *)
+Theorem C14x_bfs_generations_preserved : forall tt tt', (forall u v, tt' (phi u) (phi v) O = tt u v O) ->
+  forall v n, bfs_dist g' (T0 tt') i0' r0' (phi v) n <-> bfs_dist g (T0 tt) i0 r0 v n.
+Proof. exact (bfs_iff g g' phi Hinj Hnodes Hadj i0 i0' r0 r0' Hi0 Hr0). Qed.
+Theorem C14x_delay_paths_preserved : forall delay delay' dur dur',
+  (forall u v, delay' (phi u) (phi v) = delay u v) -> (forall u, dur' (phi u) = dur u) ->
+  forall v c, hpath g' delay' dur' i0' r0' (phi v) c <-> hpath g delay dur i0 r0 v c.
+Proof. exact (hpath_iff g g' phi Hinj Hnodes Hadj i0 i0' r0 r0' Hi0 Hr0). Qed.
+
+(* discrete_SIR with a table transmission test, ANY two set-iteration orders and pick rules: identical rows; in full-data
+   mode the per-node histories of the copy are the per-node histories of the original mapped through phi *)
+Theorem C14x_discrete_SIR_relabel_invariant : forall tt tt', (forall u v, tt' (phi u) (phi v) O = tt u v O) ->
+  wf_inputb g i0 r0 = true -> wf_inputb g' i0' r0' = true ->
+  forall pick pick' ord ord' tmin tmax full fuel fuel',
+  perm_oracle ord -> perm_oracle ord' -> (length (gnodes g) < fuel)%nat -> (length (gnodes g') < fuel')%nat ->
+  exists out out',
+    discrete_SIR g (det_rules tt pick) None ord (Some i0) (Some r0) None tmin tmax full fuel = Ret out /\
+    discrete_SIR g' (det_rules tt' pick') None ord' (Some i0') (Some r0') None tmin tmax full fuel' = Ret out' /\
+    so_rows (o_sim out') = so_rows (o_sim out) /\
+    (if full then exists h h', option_map fd_hist (so_full (o_sim out)) = Some h /\ option_map fd_hist (so_full (o_sim out')) = Some h' /\
+                               Permutation h' (relabel_hist phi h)
+     else so_full (o_sim out) = None /\ so_full (o_sim out') = None).
+Proof. exact (dsir_relabel_invariant g g' phi Hinj Hnodes Hadj i0 i0' r0 r0' Hi0 Hr0). Qed.
+
+(* fast_nonMarkov_SIR with tables of delays / durations, ANY two tie policies of the priority queue: who is infected,
+   every infection time, every recovery time and every final status are mapped through phi (the outputs are built from
+   tlog, rect, stat: C11 esir_det_transmissions / esir_det_full) *)
+Theorem C14x_fast_nonMarkov_SIR_relabel_invariant : forall delay delay' dur dur',
+  (forall u v, delay' (phi u) (phi v) = delay u v) -> (forall u, dur' (phi u) = dur u) ->
+  forall tb tb' tmin tmax fuel fuel',
+  esir_okb g delay dur i0 r0 tmin tmax = true -> esir_okb g' delay' dur' i0' r0' tmin tmax = true ->
+  (esir_fuel g i0 <= fuel)%nat -> (esir_fuel g' i0' <= fuel')%nat ->
+  exists sF sF',
+    esir_run tb g delay dur i0 r0 tmin tmax fuel = Ok sF /\
+    esir_run tb' g' delay' dur' i0' r0' tmin tmax fuel' = Ok sF' /\
+    (forall v, infd (tlog sF') (phi v) <-> infd (tlog sF) v) /\
+    (forall v t a t' a', In (t, a, v) (tlog sF) -> In (t', a', phi v) (tlog sF') ->
+        t' == t /\ (exists r r', rect sF v = Some r /\ rect sF' (phi v) = Some r' /\
+                                 match r, r' with Some x, Some x' => x' == x | None, None => True | _, _ => False end)) /\
+    (forall v, stat sF' (phi v) = stat sF v).
+Proof. exact (esir_relabel_invariant g g' phi Hinj Hnodes Hadj i0 i0' r0 r0' Hi0 Hr0). Qed.
+End C14x_simulators.
+
+(* non-vacuity: the graph pair of C14x_iso_hypotheses_satisfiable with I0 = {10}, R0 = {40}, a contact table that blocks
+   30 -> 20 and a delay table in which 10 -> 20 is too slow: both domains hold on both sides, the tables are transported,
+   and the epidemics are not trivial (three rows; three infections) *)
+Example C14x_sim_hypotheses_satisfiable :
+  (forall u v, ex_tt' (ex_phi_g u) (ex_phi_g v) O = ex_tt u v O) /\
+  (forall u v, ex_delay' (ex_phi_g u) (ex_phi_g v) = ex_delay u v) /\ (forall u, ex_dur' (ex_phi_g u) = ex_dur u) /\
+  (Permutation [90%N] (map ex_phi_g [10%N]) /\ Permutation [60%N] (map ex_phi_g [40%N])) /\
+  (wf_inputb exG [10%N] [40%N] = true /\ wf_inputb exG' [90%N] [60%N] = true /\
+   esir_okb exG ex_delay ex_dur [10%N] [40%N] (1#2) (Some 9) = true /\ esir_okb exG' ex_delay' ex_dur' [90%N] [60%N] (1#2) (Some 9) = true).
+Proof. exact (conj ex_tt_transported (conj ex_delay_transported (conj ex_dur_transported (conj ex_sets ex_sim_domains)))). Qed.
+Example C14x_sim_nontrivial :
+  (match discrete_SIR exG (det_rules ex_tt (fun _ _ => O)) None (fun _ l => l) (Some [10%N]) (Some [40%N]) None 0 None false 10 with
+   | Ret out => length (so_rows (o_sim out)) | _ => O end = 3%nat) /\
+  (match esir_run fifo exG ex_delay ex_dur [10%N] [40%N] (1#2) (Some 9) (esir_fuel exG [10%N]) with
+   | Ok s => length (tlog s) | Err _ => O end = 3%nat).
+Proof. exact ex_sim_nontrivial. Qed.
+
 Print Assumptions C14x_node_rhs_equivariant.
 Print Assumptions C14x_node_rhs_equivariant_b.
 Print Assumptions C14x_node_outputs_invariant.
@@ -214,3 +290,9 @@ Print Assumptions C14x_wrapper_row0_invariant.
 Print Assumptions C14x_iso_hypotheses_satisfiable.
 Print Assumptions C14x_iso_edges_differ.
 Print Assumptions C14x_iso_output_nontrivial.
+Print Assumptions C14x_bfs_generations_preserved.
+Print Assumptions C14x_delay_paths_preserved.
+Print Assumptions C14x_discrete_SIR_relabel_invariant.
+Print Assumptions C14x_fast_nonMarkov_SIR_relabel_invariant.
+Print Assumptions C14x_sim_hypotheses_satisfiable.
+Print Assumptions C14x_sim_nontrivial.
